@@ -126,7 +126,8 @@ inline rc::Gen<std::string> gen_text(bool plain_only) {
 	static const std::vector<std::string> words{"echo", "hello", "/bin/true", "backup.sh", "--flag", "a b", "x=1", "job#7", "50%", "(paren)", "q?", "tab", "ümlaut", "日本", "path/to/file.txt", "user@example.com", "-n", "'single'", "$HOME", "&&", "|", ">out", "1", "0", "true", "false"};
 	auto w = rc::gen::elementOf(words);
 	return rc::gen::mapcat(R(0, 20), [=](int cls) -> rc::Gen<std::string> {
-		if (cls == 0 && !plain_only) return rc::gen::map(R(900, 1101), [](int n) { std::string s; while ((int)s.size() < n) s += "long-value-0123456789 "; s.resize((size_t)n); while (!s.empty() && s.back() == ' ') s.back() = '_'; return s; });
+		// long values: the whole line (key included) stays below the parser's documented 1 KiB line stash; longer lines are ignored by design
+		if (cls == 0 && !plain_only) return rc::gen::map(R(880, 996), [](int n) { std::string s; while ((int)s.size() < n) s += "long-value-0123456789 "; s.resize((size_t)n); while (!s.empty() && s.back() == ' ') s.back() = '_'; return s; });
 		size_t n = cls < 8 ? 1 : cls < 15 ? 2 : 4;
 		return rc::gen::map(rc::gen::container<std::vector<std::string>>(n, w), [](std::vector<std::string> v) { std::string s; for (size_t i = 0; i < v.size(); i++) { if (i) s += " "; s += v[i]; } return s; });
 	});
